@@ -357,42 +357,54 @@ pub fn silence_panics() {
 // ---------------------------------------------------------------------------------------------
 // Watchdog: a subject call that does not return is reported as a violation for the case that was
 // running (the call cannot be interrupted, so the process exits after reporting).
-use std::sync::Mutex;
-use std::thread::ThreadId;
-static WATCH: Mutex<Option<std::collections::HashMap<ThreadId, (Instant, String, String)>>> = Mutex::new(None);
+use std::sync::{Arc, Mutex};
+type Slot = Arc<Mutex<Option<(Instant, String, Box<dyn FnOnce() -> Value + Send>)>>>;
+static SLOTS: Mutex<Vec<Slot>> = Mutex::new(Vec::new());
+thread_local! {
+    static MY_SLOT: Slot = {
+        let s: Slot = Arc::new(Mutex::new(None));
+        SLOTS.lock().unwrap().push(s.clone());
+        s
+    };
+}
 
 pub struct Guard;
 impl Drop for Guard {
     fn drop(&mut self) {
-        if let Ok(mut w) = WATCH.lock() {
-            if let Some(m) = w.as_mut() {
-                m.remove(&std::thread::current().id());
+        MY_SLOT.with(|s| {
+            if let Ok(mut g) = s.lock() {
+                *g = None;
             }
-        }
+        });
     }
 }
-/// Register the case the current thread is about to run on the subject.
-pub fn guard(key: &str, case: impl FnOnce() -> Value) -> Guard {
-    if let Ok(mut w) = WATCH.lock() {
-        if let Some(m) = w.as_mut() {
-            m.insert(std::thread::current().id(), (Instant::now(), key.to_string(), case().to_string()));
+/// Register the case the current thread is about to run on the subject. The closure is only
+/// evaluated if the watchdog fires.
+pub fn guard(key: &str, case: impl FnOnce() -> Value + Send + 'static) -> Guard {
+    MY_SLOT.with(|s| {
+        if let Ok(mut g) = s.lock() {
+            *g = Some((Instant::now(), key.to_string(), Box::new(case)));
         }
-    }
+    });
     Guard
 }
 pub fn start_watchdog(prop: String, limit_s: f64) {
-    *WATCH.lock().unwrap() = Some(Default::default());
     std::thread::spawn(move || loop {
         std::thread::sleep(std::time::Duration::from_millis(500));
-        let hit = {
-            let w = WATCH.lock().unwrap();
-            w.as_ref().and_then(|m| m.values().find(|(t, _, _)| t.elapsed().as_secs_f64() > limit_s).cloned())
-        };
+        let slots: Vec<Slot> = SLOTS.lock().unwrap().clone();
+        let mut hit = None;
+        for s in slots {
+            let mut g = s.lock().unwrap();
+            if g.as_ref().map(|(t, _, _)| t.elapsed().as_secs_f64() > limit_s).unwrap_or(false) {
+                hit = g.take();
+                break;
+            }
+        }
         if let Some((_, key, case)) = hit {
+            let cv = case();
             let dir = verif_root().join("replays");
             let _ = std::fs::create_dir_all(&dir);
-            let path = dir.join(format!("{}-{:016x}.json", prop, h64(&case)));
-            let cv: Value = serde_json::from_str(&case).unwrap_or(Value::Null);
+            let path = dir.join(format!("{}-{:016x}.json", prop, h64(&cv.to_string())));
             let kkey = format!("{key}:no-termination");
             let body = json!({"property": prop, "key": kkey, "message": format!("subject call did not return within {limit_s} s"), "case": cv});
             let _ = std::fs::write(&path, serde_json::to_string_pretty(&body).unwrap());
